@@ -2,6 +2,8 @@
 from tools.lv import hexs
 
 LEVEL = "other"
+# the two entries that talk to a loopback peer (a reply, then the peer closes) depend on the scheduler: a failure is re-run alone before it counts
+RETRY_TIMING = True
 JOBS = 16
 UNOPTIMISED_BUILD = True
 ENTRIES = ["addr", "addrnew", "mbox", "mboxes", "mboxname", "ctype", "cdisp", "date", "dateparse", "url", "aurl", "resp", "hval", "hname",
@@ -130,6 +132,11 @@ def gen(tier, rng):
         for u in units:
             cases.append(f"scale\t{e}\t{enc(u)}\t64\t{mx}")
     return cases
+
+
+def timing_dependent(case):
+    f = case.split("\t")
+    return len(f) > 1 and f[1] in ("rrclose", "arrclose")
 
 
 def nontrivial(case):
